@@ -367,7 +367,8 @@ def jobs(tier):
     js = []
     for cfg in configs(tier):
         js.append(Job(cfg["name"], job_class, cfg))
-        if tier == "thorough" or cfg["fk"] in (None, 1):
+        stuck = cfg["cls"] == "HandyModRTransform" and cfg["fk"] == 2      # z3 does not return on deriv3_inverse of the wrapped m = 2 map (timeout ignored inside nlsat): excluded, stated
+        if (tier == "thorough" or cfg["fk"] in (None, 1)) and not stuck:
             js.append(Job(cfg["name"] + "/InverseRTransform", job_class, cfg, inverse_wrap=True))
         js.append(Job(cfg["name"] + "/end-points", job_endpoints, cfg, True))
         if tier == "thorough" and cfg["cls"] in ("BeckeRTransform", "MultiExpRTransform", "KnowlesRTransform", "HandyRTransform", "HandyModRTransform"):
@@ -390,7 +391,7 @@ def main():
         bounds=dict(classes=12, integer_exponents="k,m in 1..4 (quick) / 1..6 (Knowles, Handy), 1..3 / 1..5 (HandyMod)", x="one symbolic interior point per call (arrays of length 1 and 2)",
                     parameters="all reals under the documented precondition; HandyMod additionally rmax-rmin > 2^m-1"),
         outside=["non-integer exponents k, m (general real power)", "derivatives / inverses evaluated exactly on the domain boundary",
-                 "IEEE rounding: float arithmetic is read as exact real arithmetic", "HandyMod with rmax-rmin <= 2^m-1 (denominator vanishes inside the domain)"],
+                 "IEEE rounding: float arithmetic is read as exact real arithmetic", "HandyMod with rmax-rmin <= 2^m-1 (denominator vanishes inside the domain)", "InverseRTransform(HandyModRTransform(m=2)) (solver does not terminate); m = 1, 3, 4, 5 wrapped are decided"],
         assumptions=["denominators of the executed expressions are non-zero (identities claimed where the implementation's expression is defined)",
                      "exp/log are mutually inverse strictly monotone functions (axioms listed in symgrid/smt.py)"])
 
